@@ -85,6 +85,62 @@ theorem deliver_ok {σ ρ : Type} (s s' : σ) (f : σ → R (σ × ρ)) (r : ρ)
   · rename_i s'' r'' heq; simp at h; obtain ⟨h1, h2⟩ := h; subst h1; subst h2; exact heq
   · simp at h
 
+/-! ### a transaction of several messages
+
+The messages run in order on the transaction's branch; the first failure ends the transaction and
+the branch is discarded.  This is what the harness's `later=1` operations exercise on the
+implementation: a message that succeeds, followed by a sibling that fails. -/
+
+/-- the messages of one transaction on its branch: the state after all of them and their responses,
+or the first rejection -/
+def runMsgs {σ ο ρ : Type} (step : σ → ο → R (σ × ρ)) : σ → List ο → R (σ × List ρ)
+  | s, [] => .ok (s, [])
+  | s, o :: os =>
+    match step s o with
+    | .error e => .error e
+    | .ok (s1, r) =>
+      match runMsgs step s1 os with
+      | .error e => .error e
+      | .ok (s2, rs) => .ok (s2, r :: rs)
+
+/-- the transaction: `deliver` around all its messages -/
+def deliverTx {σ ο ρ : Type} (step : σ → ο → R (σ × ρ)) (s : σ) (os : List ο) : σ × R (List ρ) :=
+  deliver s (fun s => runMsgs step s os)
+
+/-- a failing message fails the transaction wherever it stands, whatever the messages before it did -/
+theorem runMsgs_fails {σ ο ρ : Type} (step : σ → ο → R (σ × ρ)) (bad : ο)
+    (hbad : ∀ s, ∃ e, step s bad = .error e) (pre post : List ο) :
+    ∀ s, ∃ e, runMsgs step s (pre ++ bad :: post) = .error e := by
+  induction pre with
+  | nil =>
+    intro s
+    obtain ⟨e, he⟩ := hbad s
+    exact ⟨e, by simp only [List.nil_append, runMsgs, he]⟩
+  | cons o os ih =>
+    intro s
+    simp only [List.cons_append, runMsgs]
+    cases h1 : step s o with
+    | error e => exact ⟨e, rfl⟩
+    | ok p =>
+      obtain ⟨s1, r⟩ := p
+      obtain ⟨e, he⟩ := ih s1
+      exact ⟨e, by simp only [he]⟩
+
+/-- **All or nothing.**  A transaction containing a message that fails leaves the state exactly as
+it was — including everything its earlier, successful messages did. -/
+theorem later_failure_unchanged {σ ο ρ : Type} (step : σ → ο → R (σ × ρ)) (bad : ο)
+    (hbad : ∀ s, ∃ e, step s bad = .error e) (pre post : List ο) (s : σ) :
+    (deliverTx step s (pre ++ bad :: post)).1 = s := by
+  obtain ⟨e, he⟩ := runMsgs_fails step bad hbad pre post s
+  unfold deliverTx deliver
+  simp only [he]
+
+/-- a transaction whose messages all succeed ends in the state the messages reach one after the other -/
+theorem deliverTx_ok {σ ο ρ : Type} (step : σ → ο → R (σ × ρ)) (s s' : σ) (os : List ο) (rs : List ρ)
+    (h : runMsgs step s os = .ok (s', rs)) : deliverTx step s os = (s', .ok rs) := by
+  unfold deliverTx deliver
+  simp only [h]
+
 /-- lifting a one-step invariant to every operation sequence -/
 theorem foldl_inv {σ ο : Type} (step : σ → ο → σ) (Inv : σ → Prop)
     (hstep : ∀ s o, Inv s → Inv (step s o)) (ops : List ο) (s : σ) (h : Inv s) :
